@@ -164,3 +164,142 @@ func firstMissing(got []int32) int {
 }
 
 func TestSlowSubscriber(t *testing.T) { vt.Run(t, prop, "TestSlowSubscriber", genSlow, checkSlow) }
+
+// A sibling which has stopped reading for good: beyond the capacity of its
+// queue the library sheds its events (the property does not cover it any
+// more), but the subscribers of the same signal on the same connection which
+// keep reading still get every event once, in order.
+type StalledCase struct {
+	Readers    int   `json:"readers"`
+	StallFirst bool  `json:"stall_first"` // the stalled subscriber registered before the readers
+	Lockstep   int   `json:"lockstep"`    // events emitted one by one (each awaited by the readers) until the stalled queue is full
+	Bursts     []int `json:"bursts"`      // then bursts of events back to back
+}
+
+func genStalled(t *rapid.T) StalledCase {
+	c := StalledCase{Readers: rapid.IntRange(1, 2).Draw(t, "readers"), StallFirst: rapid.Bool().Draw(t, "stallfirst"),
+		Lockstep: rapid.IntRange(98, 130).Draw(t, "lockstep")}
+	n := rapid.IntRange(1, 5).Draw(t, "bursts")
+	for i := 0; i < n; i++ {
+		c.Bursts = append(c.Bursts, rapid.IntRange(2, 20).Draw(t, "burst"))
+	}
+	return c
+}
+
+func checkStalled(c StalledCase) error {
+	vt.Journal(prop, "TestStalledSibling", "C13:process-died", c)
+	defer vt.JournalDone(prop, "TestStalledSibling")
+	env, err := netkit.StartServer(bus.Yes{})
+	if err != nil {
+		return vt.Violationf("C13:setup", "server: %v", err)
+	}
+	defer env.Close()
+	bomb, actor := probe.NewBomb("bomb", env.Journal)
+	if _, err := env.Server.NewService("Bomb", actor); err != nil {
+		return vt.Violationf("C13:setup", "service: %v", err)
+	}
+	sess, err := session.NewAuthSession(env.Addr, "u", "t")
+	if err != nil {
+		return vt.Violationf("C13:setup", "session: %v", err)
+	}
+	defer sess.Terminate()
+	subscribe := func() (func(), chan int32, error) {
+		p, err := sess.Proxy("Bomb", 1)
+		if err != nil {
+			return nil, nil, err
+		}
+		return space.MakeBomb(sess, p).SubscribeBoom()
+	}
+	var stalledCh chan int32
+	stall := func() error {
+		cancel, ch, err := subscribe()
+		if err != nil {
+			return vt.Violationf("C13:subscribe-error", "%v", err)
+		}
+		_ = cancel // it never reads, never cancels: it goes with the session
+		stalledCh = ch
+		return nil
+	}
+	if c.StallFirst {
+		if err := stall(); err != nil {
+			return err
+		}
+	}
+	var readers []*subscription
+	for i := 0; i < c.Readers; i++ {
+		cancel, ch, err := subscribe()
+		if err != nil {
+			return vt.Violationf("C13:subscribe-error", "%v", err)
+		}
+		defer cancel()
+		s := &subscription{signal: "boom", ch: ch, closed: make(chan struct{})}
+		go s.reader()
+		readers = append(readers, s)
+	}
+	if !c.StallFirst {
+		if err := stall(); err != nil {
+			return err
+		}
+	}
+	emitted := int32(0)
+	await := func(why string) error {
+		for i, r := range readers {
+			deadline := time.Now().Add(bound)
+			for len(r.got()) < int(emitted) && time.Now().Before(deadline) {
+				time.Sleep(50 * time.Microsecond)
+			}
+			got := r.got()
+			for k, v := range got {
+				if v != int32(k+1) {
+					return vt.Violationf("C13:stalled-sibling:neighbour-disturbed", "%s: subscriber %d, which keeps reading, received %d as its event number %d (a sibling subscribed to the same signal through the same connection stopped reading %d events ago)", why, i, v, k+1, emitted)
+				}
+			}
+			if len(got) != int(emitted) {
+				return vt.Violationf("C13:stalled-sibling:neighbour-disturbed", "%s: subscriber %d, which keeps reading, has received %d of the %d events emitted (a sibling subscribed to the same signal through the same connection has stopped reading)", why, i, len(got), emitted)
+			}
+		}
+		return nil
+	}
+	for i := 0; i < c.Lockstep; i++ {
+		emitted++
+		if err := bomb.Helper.SignalBoom(emitted); err != nil {
+			return vt.Violationf("C13:emit-error", "%v", err)
+		}
+		if err := await("one by one"); err != nil {
+			return err
+		}
+	}
+	for _, n := range c.Bursts {
+		for i := 0; i < n; i++ {
+			emitted++
+			if err := bomb.Helper.SignalBoom(emitted); err != nil {
+				return vt.Violationf("C13:emit-error", "%v", err)
+			}
+		}
+		if err := await(fmt.Sprintf("after a burst of %d", n)); err != nil {
+			return err
+		}
+	}
+	// what the stalled one finds if it ever looks: events in order, none twice, none invented
+	last := int32(0)
+drain:
+	for {
+		select {
+		case v, ok := <-stalledCh:
+			if !ok {
+				break drain
+			}
+			if v <= last || v > emitted {
+				return vt.Violationf("C13:stalled-sibling:duplicate-or-reordered", "the stalled subscriber finds %d after %d in its queue (%d events emitted)", v, last, emitted)
+			}
+			last = v
+		default:
+			break drain
+		}
+	}
+	key, _ := json.Marshal(c)
+	vt.Case(c.Lockstep >= 102, "stalled"+string(key), "mode=stalled-sibling", fmt.Sprintf("readers=%d", c.Readers))
+	return nil
+}
+
+func TestStalledSibling(t *testing.T) { vt.Run(t, prop, "TestStalledSibling", genStalled, checkStalled) }
